@@ -115,7 +115,8 @@ def run_topic_check(ctx, prop, *, kinds, want, given, maxseq, u1_quick, u1_thoro
                                    ["g1", "p12"] if p2p else ["g1"], maxsubs=maxsubs, marks="Note" in kinds, perms="Pub" in kinds,
                                    suspend_root=(roots[0] if (suspend and roots) else None),
                                    obo_root=(roots[0] if (roots and "DelMsg" in kinds) else None), hist="DelMsg" in kinds,
-                                   obo_pub_root=(roots[0] if (roots and "Pub" in kinds) else None), chan=(chan and "Pub" in kinds))
+                                   obo_pub_root=(roots[0] if (roots and "Pub" in kinds) else None), chan=(chan and "Pub" in kinds),
+                                   me_notes=(special and "Note" in kinds and sess_per_user >= 2 and p2p))
         for name, b in sorted(gb.items()):
             behs.append(b)
             labels.append("goal:" + name)
